@@ -94,6 +94,26 @@ def k_custom_self(ctx, seqs, k, dist, maxcd, engines):
         S.expect_triplets(ctx, out, exp, name, f"custom-self-radius-{rad}", extra={"dist": dist, "maxcd": str(maxcd)})
 
 
+def k_custom_big(ctx, n, dist, maxcd, np_seed):
+    """tens of thousands of sequences (positions beyond 2^15 / pair codes beyond 2^31), max_edits = 1, default search with a custom distance"""
+    import random as _r
+    rng = _r.Random(np_seed)
+    seqs = G.repertoire(rng, n, families=max(1, n // 3))
+    f = D.DISTS[dist]
+    mc = _maxcd(maxcd)
+    ctx.count("custom_big_cases")
+    ctx.nontriv(["cbig", n, dist, str(maxcd), np_seed])
+    ctx.sample("custom_big", {"n": n, "dist": dist, "maxcd": str(maxcd)})
+    exp = collections.Counter()
+    for (i, j, d) in O.neigh_self_k1_big(seqs):
+        v = f(seqs[i], seqs[j])
+        if v <= mc:
+            exp[(i, j, O.num(v))] += 1
+    for name in ("symdel", "nearest_neighbor"):
+        out = ctx.call(S.engine(name), list(seqs), max_edits=1, custom_distance=f, max_custom_distance=mc)
+        S.expect_triplets(ctx, out, exp, name, "custom-self-big", extra={"dist": dist, "maxcd": str(maxcd), "n": n})
+
+
 def k_custom_cross(ctx, refs, queries, k, dist, maxcd):
     import pyrepseq.nn as nn
     f = D.DISTS[dist]
@@ -264,7 +284,7 @@ def k_vtables(ctx):
             ctx.violation(f"vdists_{chain}:duplicate-labels", "duplicate allele labels", None, None)
 
 
-KINDS = {"custom_self": k_custom_self, "custom_cross": k_custom_cross, "custom_history": k_custom_history, "tcrdist": k_tcrdist, "vtables": k_vtables}
+KINDS = {"custom_big": k_custom_big, "custom_self": k_custom_self, "custom_cross": k_custom_cross, "custom_history": k_custom_history, "tcrdist": k_tcrdist, "vtables": k_vtables}
 ENG = ["nearest_neighbor", "symdel", "hash_based", "kdtree"]
 WIT = ["CAAA", "CADA", "CAAAD", "CAAA", "CDDD", "CAAK", "CAA", "CDDA", "CADAA", "CWWW", "CA"]
 
@@ -306,6 +326,10 @@ def generate(tier, seed):
             yield "custom_cross", {"refs": WIT, "queries": WIT[3:] + ["CAKA", "CDD"], "k": 1, "dist": dist, "maxcd": r}, True
     # D5 witness class: scaled distance, infinite radius; small custom value beyond max_edits
     yield "custom_self", {"seqs": ["CAAA", "CADA", "CAAK", "CDDD"], "k": 1, "dist": "lev3", "maxcd": "inf", "engines": ENG}, True
+    # one residue repeated 255 / 256 times (composition counts around 2^8), all engines
+    yield "custom_self", {"seqs": ["G" * 256, "G" * 255, "C" + "G" * 255, "G" * 255 + "A", "G" * 300, "G" * 299], "k": 1, "dist": "lev2", "maxcd": "inf",
+                          "engines": ["symdel", "kdtree", "hash_based"]}, True
+    yield "custom_big", {"n": 3000 if not thorough else 47500, "dist": "lev2", "maxcd": 2.0, "np_seed": 14400 + seed}, True
     yield "custom_self", {"seqs": ["CAAA", "CADD", "CAAK", "CDDD"], "k": 1, "dist": "halflev", "maxcd": 1.0, "engines": ENG}, True
     yield "custom_self", {"seqs": ["CAAA", "CADD", "CAAK", "CDDD"], "k": 1, "dist": "lendiff", "maxcd": 0.0, "engines": ENG}, True
     pools = [G.universe("AC", 5), G.universe("ACD", 4), G.universe("AWY", 3)]
